@@ -34,6 +34,12 @@ Additions for stateful callees (retrospective wrappers / smoothers; all fail clo
                `result (T * S1 * ... * Sn)` and the statement becomes `dor (x, s1, ..., sn) <- template;` - it may raise.
   cfg["return_state"]  [state variables]: every `return e` returns `(e, s1, ..., sn)`, the function's type is
                `result (T * S1 * ... * Sn)` (the state the caller goes on with, e.g. the unread answers).
+  `while True:` with `break` / `continue` (only with cfg["while_fuel"] = name of a `nat` parameter): PyRt.res_while, recursion on
+               that explicit fuel over the tuple of carried variables; the body answers (go on?, state): `break` = false, end of
+               body / `continue` = true.  Running out of fuel is NOT a Python behaviour (Err 98): linking theorems are stated
+               for sufficient fuel.  Any other loop test, while/else, `return` inside, `break` in a `for` are refused.
+  [x for x in L if c(x)] whose single condition may raise: PyRt.res_filter (conditions evaluated left to right, the first
+               exception ends the comprehension); only for the default `result` monad.
 """
 import ast
 
@@ -217,6 +223,11 @@ class Tr:
             else:
                 f, ft = self.expr(e.elt, env2, inner)
                 out = "(map (fun %s => %s) %s)" % (x, f, src), ("list", ft)
+            if inner and isinstance(e.elt, ast.Name) and e.elt.id == x and len(conds) == 1 and self.M["type"] == "result":
+                n = self.new("c")     # one condition that may raise: res_filter, hoisted (the comprehension itself may raise)
+                binds = " ".join("dor %s <- %s;" % (hn, ht) for hn, ht in inner)
+                hoist.append((n, "res_filter (fun %s => %s Ok %s) %s" % (x, binds, conds[0], l)))
+                return n, lt
             if inner:
                 raise Unsupported("comprehension element / condition that may raise: " + ast.unparse(e))
             return out
@@ -347,6 +358,9 @@ class Tr:
                     if self.unify(patn, st.value, {}):
                         for n in svars:
                             add(n)
+                for patn, var, _s, _v, _t in self.effect_calls:
+                    if self.unify(patn, st.value, {}):
+                        add(var)
                 for t in st.targets:
                     for n in ([t] if isinstance(t, ast.Name) else t.elts if isinstance(t, ast.Tuple) else []):
                         if isinstance(n, ast.Name):
@@ -380,8 +394,13 @@ class Tr:
                         add(n)
                 if st.orelse:
                     raise Unsupported("for/else")
-            elif isinstance(st, (ast.Continue, ast.Raise, ast.Return)):
+            elif isinstance(st, (ast.Continue, ast.Raise, ast.Return, ast.Break)):
                 pass
+            elif isinstance(st, ast.While):
+                for n in self.assigned(st.body):
+                    add(n)
+                if st.orelse:
+                    raise Unsupported("while/else")
             elif isinstance(st, ast.Match):
                 for c in st.cases:
                     for n in self.assigned(c.body):
@@ -406,7 +425,7 @@ class Tr:
 
     def always_jumps(self, stmts):
         for st in stmts:
-            if isinstance(st, (ast.Continue, ast.Raise, ast.Return)):
+            if isinstance(st, (ast.Continue, ast.Raise, ast.Return, ast.Break)):
                 return True
             if isinstance(st, ast.If) and st.orelse and self.always_jumps(st.body) and self.always_jumps(st.orelse):
                 return True
@@ -418,8 +437,8 @@ class Tr:
                 return True
             if isinstance(st, ast.If) and (self.has_jump(st.body, kinds) or self.has_jump(st.orelse, kinds)):
                 return True
-            if isinstance(st, ast.For):
-                inner = tuple(k for k in kinds if k is not ast.Continue)
+            if isinstance(st, (ast.For, ast.While)):
+                inner = tuple(k for k in kinds if k is not ast.Continue and k is not ast.Break)
                 if inner and self.has_jump(st.body, inner):
                     return True
         return False
@@ -548,6 +567,10 @@ class Tr:
             return "%s%s\n" % (ind, self.raise_term(st, env))
         if isinstance(st, ast.Continue):
             return k(env, jump="continue")
+        if isinstance(st, ast.Break):
+            return k(env, jump="break")
+        if isinstance(st, ast.While):
+            return self.while_loop(st, rest, env, k, ind)
         if isinstance(st, ast.Return):
             if st.value is None:
                 st = ast.Return(value=ast.Constant(value=None))     # `return` is `return None`
@@ -562,8 +585,8 @@ class Tr:
                 tb = self.block(st.body + ([] if bj else rest), env, k, ind + "  ")
                 te = self.block(st.orelse + ([] if oj else rest), env, k, ind + "  ")
                 return self.bind_hoist(hoist, "%sif %s then\n%s%selse\n%s" % (ind, c, tb, ind, te), ind)
-            if self.has_jump(st.body + st.orelse, (ast.Continue, ast.Return)):
-                raise Unsupported("an if with a branch that may, but need not, continue/return: " + ast.unparse(st.test))
+            if self.has_jump(st.body + st.orelse, (ast.Continue, ast.Return, ast.Break)):
+                raise Unsupported("an if with a branch that may, but need not, continue/return/break: " + ast.unparse(st.test))
             allv = self.assigned(st.body + st.orelse)
             vs = [v for v in allv if v in env and env[v] != ("unit",)]
             dropped = [v for v in allv if v not in vs]
@@ -702,6 +725,39 @@ class Tr:
             txt += "%slet %s := tt in\n" % (ind, v)   # poison: a later read is a type error
             env_after[v] = ("unit",)
         return self.bind_hoist(hoist, txt, ind) + self.block(rest, env_after, k, ind)
+
+    def while_loop(self, st, rest, env, k, ind):
+        """`while True:` left only by `break` (or an exception): PyRt.res_while on the explicit fuel cfg["while_fuel"]"""
+        fuel = self.cfg.get("while_fuel")
+        if not (isinstance(st.test, ast.Constant) and st.test.value is True) or st.orelse:
+            raise Unsupported("while loop other than `while True:` without else")
+        if fuel is None or env.get(fuel) != ("nat",) or self.M["type"] != "result":
+            raise Unsupported("while loop without a declared fuel parameter of type nat")
+        if self.has_jump(st.body, (ast.Return,)):
+            raise Unsupported("return inside a loop")
+        body_assigned = self.assigned(st.body)
+        bound = lambda v: v in env and env[v] != ("unit",)
+        carried = [v for v in body_assigned if bound(v)]
+        dropped = [v for v in body_assigned if not bound(v)]
+
+        def kbody(env2, jump=None):
+            if jump is None or jump == "continue":
+                return "%s    Ok (true, %s)\n" % (ind, tuple_term(carried))
+            if jump == "break":
+                return "%s    Ok (false, %s)\n" % (ind, tuple_term(carried))
+            raise Unsupported("jump out of a loop body")
+
+        body = self.block(st.body, dict(env), kbody, ind + "    ")
+        spat = tuple_pat(carried) if carried else "(_ : unit)"
+        if len(carried) == 1:
+            spat = "(%s : %s)" % (carried[0], coq_type(env[carried[0]]))
+        txt = "%s%s %s <- res_while %s (fun %s =>\n%s%s  ) %s;\n" % (
+            ind, self.M["bind"], self.bind_pat(carried), fuel, spat, body, ind, tuple_term(carried))
+        env_after = dict(env)
+        for v in dropped:
+            txt += "%slet %s := tt in\n" % (ind, v)   # poison: a later read is a type error
+            env_after[v] = ("unit",)
+        return txt + self.block(rest, env_after, k, ind)
 
     # ---- whole function
     def function(self, f):
